@@ -155,6 +155,14 @@ fn faults_for(rng: &mut Rng, g: &mut Gen, m: &Model) -> Vec<Fault> {
                 let bad_data = vec![DataReq { set: Ref::Id(s.id.clone()), id: Ref::Id("no-such-data".into()), key: Ref::None, value: DataValue::Null }];
                 out.push(Fault { name: "known-shadowed-target+unknown-data-id", bad: ann(e2, bad_data), good: Some(ann(e2, req.data.clone())), setup: vec![ann(e1, vec![]), ann(e2, vec![])] });
             }
+            // the same known selection addressed through the longer annotation and a relative offset
+            if let Some(s) = m.sets.values().next() {
+                let long_id = g.fresh_id(rng, "a");
+                let long = Op::Annotate(AnnReq { id: Some(long_id.clone()), target: Some(SelReq::Text(Ref::Id(r.id.clone()), Off::simple(b, e1))), data: vec![] });
+                let via = |data: Vec<DataReq>| Op::Annotate(AnnReq { id: None, target: Some(SelReq::Ann(Ref::Id(long_id.clone()), Some(Off::simple(0, e2 - b)))), data });
+                let bad_data = vec![DataReq { set: Ref::Id(s.id.clone()), id: Ref::Id("no-such-data".into()), key: Ref::None, value: DataValue::Null }];
+                out.push(Fault { name: "known-shadowed-target-via-annotation+unknown-data-id", bad: via(bad_data), good: Some(via(req.data.clone())), setup: vec![long, ann(e2, vec![])] });
+            }
             // the known selection as the first member of a complex selector whose last member is out of range
             out.push(Fault {
                 name: "known-shadowed-member+invalid-last-member",
@@ -316,6 +324,8 @@ fn single_faults(rep: &mut Report, rng: &mut Rng, h: &mut History, g: &mut Gen, 
             let explained = matches!(f.bad, Op::Annotate(_))
                 && match f.name {
                     "nested-complex-selector-first" => false,
+                    // the target is known already and nothing precedes the failing step: the pinned tree leaves nothing
+                    n if n.starts_with("known-shadowed") => false,
                     "complex-with-invalid-last-member" | "nested-complex-selector" => leak == "textselections" && textselection_count(&after) == textselection_count(&before) + 1,
                     _ => leak.split('+').all(|x| ["datasets", "keys", "data", "textselections"].contains(&x)),
                 };
